@@ -41,12 +41,14 @@ type leafDef struct {
 
 var data = map[string]interface{}{
 	"n3": -3, "n1": -1, "nf": -2.5, "big": 9007199254740993, "vs": "v<s>", "vt": true, "vz": 0,
+	"fbig": 2.5e9, "ftiny": 0.00001, // floats whose printed form uses an exponent
 }
 
 var leaves = map[string]model.Expr{
 	"0": model.Lit{V: 0}, "1": model.Lit{V: 1}, "2": model.Lit{V: 2}, "7": model.Lit{V: 7},
 	"n3": model.Var{Name: "n3"}, "n1": model.Var{Name: "n1"}, "big": model.Var{Name: "big"}, "vz": model.Var{Name: "vz"},
 	"1.5": model.Lit{V: 1.5}, "0.0": model.Lit{V: 0.0}, "2.0": model.Lit{V: 2.0}, "nf": model.Var{Name: "nf"},
+	"1000000.0": model.Lit{V: 1000000.0}, "fbig": model.Var{Name: "fbig"}, "ftiny": model.Var{Name: "ftiny"},
 	`"a"`: model.Lit{V: "a"}, `"b2"`: model.Lit{V: "b2"}, `""`: model.Lit{V: ""}, `"^a"`: model.Lit{V: "^a"}, `"("`: model.Lit{V: "("}, "vs": model.Var{Name: "vs"},
 	"true": model.Lit{V: true}, "false": model.Lit{V: false}, "vt": model.Var{Name: "vt"},
 	"nil": model.Lit{V: nil}, "unk": model.Var{Name: "unk"},
@@ -54,10 +56,10 @@ var leaves = map[string]model.Expr{
 
 var (
 	intLeaves    = []string{"0", "1", "2", "7", "n3", "n1", "vz", "big"}
-	floatLeaves  = []string{"1.5", "0.0", "2.0", "nf"}
+	floatLeaves  = []string{"1.5", "0.0", "2.0", "nf", "1000000.0", "fbig", "ftiny"}
 	stringLeaves = []string{`"a"`, `"b2"`, `""`, `"^a"`, "vs", `"("`}
 	boolLeaves   = []string{"true", "false", "vt"}
-	allLeaves    = []string{"0", "2", "7", "n3", "1.5", "0.0", `"a"`, `"b2"`, "true", "false", "nil", "unk"}
+	allLeaves    = []string{"0", "2", "7", "n3", "1.5", "0.0", "fbig", `"a"`, `"b2"`, "true", "false", "nil", "unk"}
 	quickLeaves  = []string{"2", "n3", "1.5", `"a"`, "true", "nil", "unk"}
 	binOps       = []string{"+", "-", "*", "/", "<", "<=", ">", ">=", "==", "!=", "~=", "&&", "||"}
 )
@@ -489,7 +491,7 @@ func (g *gen) typed(kind string, d int) *E {
 	return bin(rapid.SampledFrom(binOps).Draw(t, "op"), g.typed("any", d-1), g.typed("any", d-1))
 }
 
-const rule = "expression trees over a pool of int/float/string/bool/nil leaves (literals and variables, incl. negative numbers, a 2^53+1 integer, an unknown identifier) and the operators + - * / < <= > >= == != ~= && || ! and parentheses. (E) every tree of depth <=2 - all leaf pairs x 13 operators, !leaf, and both association shapes (a op1 b) op2 c / a op1 (b op2 c) over a 12-leaf (quick: 7-leaf) pool; (R) type-directed random trees to depth 5 in which every node is specified, plus deliberately ill-typed nodes that must be errors, with random redundant parentheses and operands wrapped in a recording helper t(i, x). Every tree is printed with the minimal parentheses implied by the stated precedence/left-associativity and fully parenthesised; both spellings are rendered as <% cap(EXPR) %> and the captured typed Go value, the helper invocation order (left-to-right, short-circuit) and error-ness must equal the reference evaluator's. SEQUENCES: one expression over the variables p and q is evaluated 2-4 times within one render (as the body of a template function called once per operand pair, or inside a loop over the pairs), the operand kinds changing from one evaluation to the next: (S1) p OP q for all 13 operators x every ordered pair (A, B) of 21 operand pairs that have a value, evaluated A, B, A, and every value pair followed by every error pair; (SR) random shapes to depth 3 over p, q and literals with random rows; every captured value and the operand evaluation order must equal the reference evaluator's. Trees whose meaning the statement does not fix (bool==non-bool, string<non-string, string+nil, int overflow, float Inf/NaN, ~= on non-strings) are counted under excluded:unspecified and not asserted. Non-trivial = depth >= 2 or an error outcome; distinct by minimal spelling."
+const rule = "expression trees over a pool of int/float/string/bool/nil leaves (literals and variables, incl. negative numbers, a 2^53+1 integer, floats whose printed form has an exponent (1000000.0, 2.5e9, 0.00001), an unknown identifier) and the operators + - * / < <= > >= == != ~= && || ! and parentheses. (E) every tree of depth <=2 - all leaf pairs x 13 operators, !leaf, and both association shapes (a op1 b) op2 c / a op1 (b op2 c) over a 13-leaf (quick: 7-leaf) pool; (R) type-directed random trees to depth 5 in which every node is specified, plus deliberately ill-typed nodes that must be errors, with random redundant parentheses and operands wrapped in a recording helper t(i, x). Every tree is printed with the minimal parentheses implied by the stated precedence/left-associativity and fully parenthesised; both spellings are rendered as <% cap(EXPR) %> and the captured typed Go value, the helper invocation order (left-to-right, short-circuit) and error-ness must equal the reference evaluator's. SEQUENCES: one expression over the variables p and q is evaluated 2-4 times within one render (as the body of a template function called once per operand pair, or inside a loop over the pairs), the operand kinds changing from one evaluation to the next: (S1) p OP q for all 13 operators x every ordered pair (A, B) of 21 operand pairs that have a value, evaluated A, B, A, and every value pair followed by every error pair; (SR) random shapes to depth 3 over p, q and literals with random rows; every captured value and the operand evaluation order must equal the reference evaluator's. Trees whose meaning the statement does not fix (bool==non-bool, string<non-string, string+nil, int overflow, float Inf/NaN, ~= on non-strings) are counted under excluded:unspecified and not asserted. Non-trivial = depth >= 2 or an error outcome; distinct by minimal spelling."
 
 func setup(t *testing.T) *vk.Run {
 	r := vk.Start(t, "C06", rule,
@@ -543,7 +545,7 @@ func TestProp(t *testing.T) {
 	}
 	sortStrings(all)
 	n1 := int64(len(all) * len(all) * len(binOps))
-	r.Subspace("depth 1: every leaf pair of the full 23-leaf pool x 13 operators, plus !leaf and !!leaf", n1+int64(2*len(all)), true)
+	r.Subspace(fmt.Sprintf("depth 1: every leaf pair of the full %d-leaf pool x 13 operators, plus !leaf and !!leaf", len(all)), n1+int64(2*len(all)), true)
 	r.Parallel(n1, 0, func(i int64) {
 		op := binOps[i%int64(len(binOps))]
 		j := i / int64(len(binOps))
